@@ -77,7 +77,7 @@ func checkCrypt(c cryptCase) *pending {
 	var ran int
 	var seen, out []byte
 	wantStatus := http.StatusOK
-	h := handler.CryptionHandler(key)(http.HandlerFunc(func(w http.ResponseWriter, r *http.Request) {
+	inner := http.HandlerFunc(func(w http.ResponseWriter, r *http.Request) {
 		ran++
 		seen, _ = io.ReadAll(r.Body)
 		switch c.Mode {
@@ -94,7 +94,7 @@ func checkCrypt(c cryptCase) *pending {
 			out = append(append([]byte{}, seen...), seen...)
 			w.Write(out)
 		}
-	}))
+	})
 	if c.Mode == 1 {
 		wantStatus = http.StatusCreated
 	}
@@ -103,7 +103,7 @@ func checkCrypt(c cryptCase) *pending {
 		return &pending{Class: "harness-bad-case", Desc: err.Error()}
 	}
 	rec := httptest.NewRecorder()
-	h.ServeHTTP(rec, req)
+	pi := guard(func() { handler.CryptionHandler(key)(inner).ServeHTTP(rec, req) })
 	resp := rec.Body.Bytes()
 
 	suffix := ""
@@ -113,6 +113,10 @@ func checkCrypt(c cryptCase) *pending {
 	fail := func(class, msg string) *pending {
 		cc := c
 		return &pending{Class: class + suffix, Desc: fmt.Sprintf("%s [%s] ran=%d status=%d", msg, c.String(), ran, rec.Code), Replay: replayCase{Family: "crypt", Crypt: &cc}}
+	}
+	if pi != nil {
+		cc := c
+		return panicPending(pi, "CryptionHandler served "+c.String(), replayCase{Family: "crypt", Crypt: &cc})
 	}
 	if ran != 1 {
 		return fail("crypt-handler-not-run", fmt.Sprintf("encrypted request did not reach the handler (ran=%d, status %d)", ran, rec.Code))
